@@ -195,6 +195,11 @@ class PipeWorld:
         '''what FSM.load does for the schedule: build() with version tables'''
         self.activate()
         self.reset_modules()
+        self.fsm.active = True
+        self.fsm.crew_wait = False
+        self.fsm.archive_calls = 0
+        dawgie.context.git_rev = self.rev
+        self.next_calls = 0
         latest = latest or ({}, {}, {})
         previous = previous or ({}, {}, {}, {})
         schedule.build(self.factories, latest, previous)
@@ -411,3 +416,27 @@ class PipeWorld:
     def ev_timer(self):
         from . import world
         return world.advance_to_next_timer()
+
+    def ev_life(self, what, rev=None):
+        '''life-cycle changes as the farm sees them'''
+        if what == 'inactive':
+            self.fsm.active = False
+        elif what == 'active':
+            self.fsm.active = True
+        elif what == 'reload':
+            # what FSM.load does when the pipeline (re)loads new software:
+            # tell every waiting worker, clear the farm, adopt the revision,
+            # rebuild the schedule
+            was = self.fsm.active
+            self.fsm.active = False
+            farm.notify_all()
+            self.collect()
+            farm.clear()
+            dawgie.context.git_rev = rev
+            self.inflight = []
+            schedule.build(self.factories, ({}, {}, {}), ({}, {}, {}, {}))
+            self.nodes = {}
+            for root in schedule.ae.at:
+                for n in root.iter():
+                    self.nodes[n.tag] = n
+            self.fsm.active = True
